@@ -13,14 +13,16 @@ TInit == tid \in 1..Len(Traces) /\ l = 1 /\ bad = 0 /\ Init
 \* cancel ids other than 1 and 2 behave like the unrelated id: mapped to themselves (the set `pending` is unbounded here)
 Do(ev) == CASE ev.e = "cancel" -> /\ pending' = pending \cup {ev.v}
                                   /\ during' = (IF InProgress THEN [during EXCEPT ![op] = @ \cup {ev.v}] ELSE during)
-                                  /\ UNCHANGED <<op, polls, ncancel, lastPoll, hist>>
-            [] ev.e = "start" -> /\ op' = ev.v /\ pending' = {} /\ polls' = 0 /\ UNCHANGED <<during, ncancel, lastPoll, hist>>
+                                  /\ UNCHANGED <<op, polls, ncancel, lastPoll, hist, nother>>
+            [] ev.e = "start" -> /\ op' = ev.v /\ pending' = {} /\ polls' = 0 /\ UNCHANGED <<during, ncancel, lastPoll, hist, nother>>
             [] ev.e = "poll" -> /\ lastPoll' = [k |-> op, reported |-> ev.r, expected |-> op \in during[op]]
                                 /\ pending' = pending \ {op} /\ during' = [during EXCEPT ![op] = @ \ {op}]
-                                /\ UNCHANGED <<op, polls, ncancel, hist>>
-            [] ev.e = "end" -> /\ op' = (IF op = 1 THEN 10 ELSE 20) /\ pending' = {} /\ UNCHANGED <<during, polls, ncancel, lastPoll, hist>>
+                                /\ UNCHANGED <<op, polls, ncancel, hist, nother>>
+            \* the poll of an operation on another association, to which no cancel was ever sent: must be FALSE
+            [] ev.e = "other" -> /\ lastPoll' = [k |-> 0, reported |-> ev.r, expected |-> FALSE] /\ UNCHANGED <<op, pending, during, polls, ncancel, hist, nother>>
+            [] ev.e = "end" -> /\ op' = (IF op = 1 THEN 10 ELSE 20) /\ pending' = {} /\ UNCHANGED <<during, polls, ncancel, lastPoll, hist, nother>>
 TNext == /\ l <= Len(T.ev) /\ Do(T.ev[l]) /\ l' = l + 1 /\ tid' = tid
-         /\ bad' = IF bad = 0 /\ T.ev[l].e = "poll" /\ lastPoll'.reported # lastPoll'.expected THEN l ELSE bad
+         /\ bad' = IF bad = 0 /\ T.ev[l].e \in {"poll", "other"} /\ lastPoll'.reported # lastPoll'.expected THEN l ELSE bad
 Done == /\ l = Len(T.ev) + 1 /\ PrintT(<<"VERDICT", T.id, bad>>) /\ l' = l + 1 /\ UNCHANGED <<vars, tid, bad>>
 TSpec == TInit /\ [][TNext \/ Done]_tvars
 =============================================================================
